@@ -30,6 +30,10 @@ struct Rng
     }
     // uniform integer in [lo, hi]
     long range(long lo, long hi) {
+        if (hi <= lo) {   // an empty or single-value range never yields anything but lo (and still consumes one draw)
+            next();
+            return lo;
+        }
         return lo + (long)(next() % (uint64_t)(hi - lo + 1));
     }
     double unif() {
